@@ -143,8 +143,10 @@ func tokenize(expr string) ([]string, error) {
 			continue
 		}
 
-		// Handle multi-character operators
-		if i+1 < len(expr) {
+		// Handle multi-character symbol operators (==, !=, <>, >=, <=). Word operators
+		// (OR, IS, ...) are read as whole words below: testing two letters here would
+		// split an identifier that merely begins with them (order_id, is_active).
+		if i+1 < len(expr) && !isLetter(expr[i]) {
 			twoChar := expr[i : i+2]
 			if isOperator(twoChar) {
 				tokens = append(tokens, twoChar)
